@@ -2,6 +2,7 @@ import os
 import sys
 
 from ckl.errors import CklRuntimeError
+from ckl.lexer import SourcePos
 from ckl.parser import parse_script
 from ckl.functions import (
     get_base_environment,
@@ -70,6 +71,12 @@ class Interpreter:
                     result.asContinue().pos
                 )
             return result
+        except RecursionError:
+            raise CklRuntimeError(
+                ValueString("ERROR"),
+                "Maximum recursion depth exceeded",
+                SourcePos(filename, 1, 1),
+            ) from None
         finally:
             if reparented:
                 reparented.withParent(savedParent)
